@@ -280,6 +280,7 @@ def write_evidence(mod, tr, seed, merged, violations, known_counts, extra=None):
         'real_components': mod.REAL,
         'stub_components': mod.STUB,
         'batch_digest': P.digest(merged['all_digest'])[:16],
+        'distinct_event_traces': len(set(merged['all_digest'])),
         'workers': workers(),
     }
     zero = sorted(k for k, v in cov['counters'].items() if k.startswith('probe.') and v == 0)
